@@ -29,6 +29,7 @@ int tag(int k, std::string &label);
 int bump(int *v, int n);
 size_t findPos(int k);
 int sumdef(const int *x, int n, int scale = 1);
+int clamp(int v, int *flag);
 class Tally {
 public:
     static int total();
